@@ -9,6 +9,7 @@ mod c10;
 mod c14;
 mod c08;
 mod c13;
+mod c11;
 mod c17;
 mod c18;
 mod c20;
@@ -32,6 +33,7 @@ fn main() {
         "c08" => c08::main(&args, false),
         "c09" => c08::main(&args, true),
         "c13" => c13::main(&args),
+        "c11" => c11::main(&args),
         "c17" => c17::main(&args),
         "c02" => c02::main(&args),
         "c18" => c18::main(&args),
